@@ -3,6 +3,7 @@ import PqV.Lemmas.Bits
 import PqV.Lemmas.KVarint
 import PqV.Lemmas.KZigzag
 import PqV.Lemmas.KHybrid
+import PqV.Lemmas.KDelta
 /-!
 # C11 — primitive codecs agree with the specification on their whole bounded domain
 
@@ -97,6 +98,15 @@ theorem readHybrid_refines (w : Nat) (hw1 : 1 ≤ w) (hw : w ≤ 24) (rs : List 
     ∃ o' loc', readHybrid (pre ++ encodeRuns w rs ++ post) pre.length w (encodeRuns w rs).length { items := [], cap := 4 * n } 4
         = .ok (o', loc') ∧ o'.items = decodeHybrid w n (encodeRuns w rs ++ post) :=
   readHybrid_eq_spec w hw1 hw rs pre post n hok hpre hpost hn
+
+/-- **`delta_read_bitpacked` (216-237) refines the specification for every miniblock width 1..28**, any
+    count, any position: the values of the LSB-first bit stream, exactly `⌈count·w/8⌉` bytes consumed,
+    no fault.  Widths ≥ 29 are the known finding (witness `delta_bitpacked_29_faults` in Props/C03). -/
+theorem deltaReadBitpacked_refines (buf : List Nat) (hbytes : ∀ b ∈ buf, b < 256) (loc0 w n : Nat) (hw1 : 1 ≤ w) (hw : w ≤ 28)
+    (hbuf : loc0 + (n * w + 7) / 8 ≤ buf.length) :
+    deltaReadBitpacked buf loc0 w n
+      = .ok ((List.range n).map (fun i => bitField w i (streamOf buf loc0)), loc0 + (n * w + 7) / 8) :=
+  deltaReadBitpacked_ok buf hbytes loc0 w n hw1 hw hbuf
 
 -- non-vacuity: concrete instances of the hypotheses
 example : ∀ r ∈ [Run.rle 3 5, Run.bp [1, 2, 3, 4, 5, 6, 7, 0]], r.wf 3 = true ∧ RunOk r := by
